@@ -13,7 +13,7 @@ EXPLANATION = ('Symbolic execution of the real CLikeCompilerArgs: operation sequ
 ASSUMPTIONS = ['argument kinds: -I -L -D -U -isystem -l -Wl,-rpath, -f lib*.a lib*.so -D*.so -pthread and the bare prefixes -I / -D; tails one character over {a,b}',
                'the reference (eager) semantics is the trusted reading of the class docstring / property statement',
                'lazy states of the inductive step: pre holds prepend-kind arguments and post the others, needs_override_check as __iadd__ would have set it']
-OUT = 'extend_preserving_lflags, D-language and linker subclasses, to_native (realpath-based default-include stripping, --start-group insertion)'
+OUT = 'D-language and linker subclasses beyond the cross-class obligation, to_native (realpath-based default-include stripping, --start-group insertion)'
 MANIFEST = dict(
     text='Bounded model checking of the lazily flushed argument list as a state machine: every operation sequence up to the bound with symbolic argument identity, against '
          'the eager semantics, plus one inductive step (laziness is transparent from any lazy state), which lifts the bounded result to arbitrary interleavings of reads.',
@@ -21,6 +21,7 @@ MANIFEST = dict(
          'elements per part. Also append_direct / extend_direct / extend_preserving_lflags with absolute paths. Outside: to_native.')
 
 CA = Dedup = arglist = None
+ORIG = {}
 
 
 def setup():
@@ -31,6 +32,8 @@ def setup():
     for c in (al.CompilerArgs, CLikeCompilerArgs):
         for nm in ('_can_dedup', '_should_prepend'):
             f = c.__dict__.get(nm)
+            if f is not None:
+                ORIG[(c, nm)] = f          # the memoised originals: put back by cross-class, which runs on concrete (hashable) arguments
             if f is not None and hasattr(f.__func__, '__wrapped__'):
                 setattr(c, nm, classmethod(f.__func__.__wrapped__))
 
@@ -212,6 +215,62 @@ def ob_lazy(nc, npre, npost, nbatch):
     return h
 
 
+# ---------------------------------------------------------------- several argument-list classes in one process (the memo layer stays in place)
+CONCRETE = ['-Ia', '-La', '-Da', '-Ua', '-la', '-pthread', '-fa', 'liba.a', '-isystema', '-Ja']
+SPECS = {      # the class attributes the documented meaning is parametrised by (arglist.CompilerArgs, clike.CLikeCompilerArgs, d.DCompilerArgs)
+    'base': dict(pre=(), ovr=(), ovr_args=(), unq_pref=(), unq_args=()),
+    'clike': dict(pre=('-I', '-L'), ovr=('-I', '-isystem', '-L', '-D', '-U'), ovr_args=(), unq_pref=('-l', '-Wl,-l', '-Wl,-rpath,', '-Wl,-rpath-link,'), unq_args=('-c', '-S', '-E', '-pipe', '-pthread', '-Wl,--export-dynamic')),
+    'd': dict(pre=('-I', '-L'), ovr=('-I',), ovr_args=(), unq_pref=(), unq_args=()),
+}
+
+
+def c_kind(a, sp):
+    if a in sp['unq_pref'] or a in sp['ovr']: return 'plain'
+    if a in sp['ovr_args'] or a.startswith(sp['ovr']) if sp['ovr'] else a in sp['ovr_args']: return 'ovr'
+    if a in sp['unq_args'] or (sp['unq_pref'] and a.startswith(sp['unq_pref'])) or a.endswith(UNQS): return 'unq'
+    return 'plain'
+
+
+def c_iadd(L, batch, sp):
+    pre, post = [], []
+    for a in batch:
+        if c_kind(a, sp) == 'unq' and a in L + pre + post: continue
+        (pre if (sp['pre'] and a.startswith(sp['pre'])) else post).append(a)
+    npre = [a for i, a in enumerate(pre) if not (c_kind(a, sp) == 'ovr' and a in pre[:i])]
+    npost = [a for i, a in enumerate(post) if not (c_kind(a, sp) == 'ovr' and a in post[i + 1:])]
+    gone = [a for a in npre + npost if c_kind(a, sp) == 'ovr']
+    return npre + [a for a in L if a not in gone] + npost
+
+
+def ob_cross_class():
+    """argument lists of DIFFERENT classes (plain CompilerArgs as used for static linkers / nasm / rust, the C-like one, the D one) handle the same argument
+    strings in one process, in any order: each follows the eager meaning with ITS OWN tables - what one class decided about a string is not what another
+    class gets. The original lru_cache wrappers are put back for this obligation (arguments are concrete, chosen by the executor)."""
+    def h():
+        from mesonbuild.compilers.d import DCompilerArgs
+        classes = {'base': arglist.CompilerArgs, 'clike': CA, 'd': DCompilerArgs}
+        saved = []
+        for (c, nm), f in ORIG.items():
+            saved.append((c, nm, c.__dict__[nm])); setattr(c, nm, f)
+        try:
+            order = [['base', 'clike'], ['clike', 'base'], ['clike', 'd'], ['d', 'clike'], ['base', 'd'], ['d', 'base']][choose(6, 'classes')]
+            batch1 = [CONCRETE[choose(len(CONCRETE), 'a%d' % i)] for i in range(2)]
+            b1 = batch1 + [batch1[0]]                  # a repeat inside the batch: de-duplication depends on the class
+            b2 = [CONCRETE[choose(len(CONCRETE), 'b0')], batch1[1]]
+            for name in order:
+                real = classes[name](COMPILER, [])
+                real += list(b1)
+                exp = c_iadd([], b1, SPECS[name])
+                check(list(real) == exp, 'first increment follows the tables of the list\'s own class')
+                real += list(b2)
+                exp = c_iadd(exp, b2, SPECS[name])
+                check(list(real) == exp, 'second increment follows the tables of the list\'s own class')
+            cover('done')
+        finally:
+            for c, nm, f in saved: setattr(c, nm, f)
+    return h
+
+
 def obligations(tier):
     q = tier == 'quick'
     out = [Obligation('classify', ob_classify(), dict(kinds=len(KINDS) + len(EXACT)), labels=('plain', 'ovr', 'unq'))]
@@ -227,4 +286,6 @@ def obligations(tier):
     shapes = [(1, 1, 1, 1), (1, 2, 1, 1), (1, 1, 2, 1), (0, 1, 1, 2)] if q else [(1, 1, 1, 1), (1, 2, 1, 1), (1, 1, 2, 1), (0, 1, 1, 2), (2, 1, 1, 1), (1, 2, 2, 1), (1, 1, 1, 2), (2, 2, 2, 1)]
     for s in shapes:
         out.append(Obligation('lazy-step%s' % (s,), ob_lazy(*s), dict(container=s[0], pre=s[1], post=s[2], batch=s[3]), labels=('done',), max_paths=3000000))
+    out.append(Obligation('cross-class', ob_cross_class(), dict(classes='two of CompilerArgs / CLikeCompilerArgs / DCompilerArgs, either order', arguments='3 choices out of %d concrete strings' % len(CONCRETE),
+                                                                 increments=2, memo='the original lru_cache wrappers are in place'), labels=('done',)))
     return out
